@@ -5,6 +5,8 @@ import (
 	"fmt"
 	"strings"
 
+	aeadsubtle "github.com/tink-crypto/tink-go/v2/aead/subtle"
+	internalaead "github.com/tink-crypto/tink-go/v2/internal/aead"
 	"github.com/tink-crypto/tink-go/v2/verifharness/hx"
 )
 
@@ -43,6 +45,9 @@ func run(line string) string {
 		return "bad-line"
 	}
 	iv, iv2, pt, ad := b[0], b[1], b[2], b[3]
+	if s.Scheme == "pv" {
+		return runPolyval(s.Key, ad, pt)
+	}
 	a, err := s.Build()
 	if err != nil {
 		return "nokey"
@@ -85,11 +90,42 @@ func field(obs, name string) string {
 	return ""
 }
 
+// runPolyval drives the two exported POLYVAL implementations (aead/subtle and
+// internal/aead share the mul32/mul64/polyvalDot kernels): key, Update(d1), Update(d2), Finish;
+// ref = the bit-serial RFC 8452 transcription of sivref.go.
+func runPolyval(key, d1, d2 []byte) string {
+	p1, err := aeadsubtle.NewPolyval(key)
+	if err != nil {
+		return "nokey"
+	}
+	p1.Update(d1)
+	p1.Update(d2)
+	h1 := p1.Finish()
+	p2, err := internalaead.NewPolyval(key)
+	if err != nil {
+		return "nokey"
+	}
+	p2.Update(d1)
+	p2.Update(d2)
+	h2 := p2.Finish()
+	ref := polyvalRef(gfFromBytes(key), append(padBlocks(d1), padBlocks(d2)...)).bytes()
+	return fmt.Sprintf("pv=%s|int=%s|ref=%s", hx.H(h1[:]), hx.H(h2[:]), hx.H(ref))
+}
+
 // check is the direct oracle: round trip, stdlib-reference equality, shape.
 func check(line, obs string) string {
 	s, b, err := splitLine(line)
 	if err != nil {
 		return "bad line"
+	}
+	if s.Scheme == "pv" {
+		if strings.HasPrefix(obs, "PANIC") || !strings.HasPrefix(obs, "pv=") {
+			return "POLYVAL: " + obs
+		}
+		if field(obs, "pv") != field(obs, "ref") || field(obs, "int") != field(obs, "ref") {
+			return "POLYVAL differs from RFC 8452 (bit-serial reference): " + obs
+		}
+		return ""
 	}
 	iv, pt, ad := b[0], b[2], b[3]
 	if strings.HasPrefix(obs, "PANIC") {
@@ -143,6 +179,9 @@ func class(line, obs string) string {
 	if sch == "env" {
 		sch = "env:" + s.DEK + ":" + s.KEK.Scheme
 	}
+	if sch == "pv" {
+		return fmt.Sprintf("pv/%d/%d/%d", bitsSet(s.Key), len(b[3]), len(b[2]))
+	}
 	if sch == "siv" {
 		if ct := hx.UH(field(obs, "ct")); len(ct) >= 16 {
 			t := ct[len(ct)-16:]
@@ -155,8 +194,61 @@ func class(line, obs string) string {
 	return fmt.Sprintf("%s/%s/%s/%d/p%s/a%s", sch, s.Route, s.Variant, len(s.Key), LenClass(len(b[2])), LenClass(len(b[3])))
 }
 
+func bitsSet(b []byte) int {
+	n := 0
+	for _, x := range b {
+		for ; x != 0; x &= x - 1 {
+			n++
+		}
+	}
+	if n > 3 {
+		return 9
+	}
+	return n
+}
+
+func oneBit(i int) []byte {
+	b := make([]byte, 16)
+	b[i/8] = 1 << (i % 8)
+	return b
+}
+
+// polyvalCases: dot(x^i, x^j) on the monomial basis, low-weight and random field elements,
+// multi-block and partial-block inputs split over two Update calls.
+func polyvalCases(r *hx.Rng, n int) []string {
+	var out []string
+	pv := func(key, d1, d2 []byte) {
+		out = append(out, fmt.Sprintf("C01|pv|S|R|0|-|%s|-|-|%s|%s", hx.H(key), hx.H(d2), hx.H(d1)))
+	}
+	for i := 0; i < n; i++ {
+		switch r.Intn(6) {
+		case 0, 1:
+			pv(oneBit(r.Intn(128)), oneBit(r.Intn(128)), nil)
+		case 2:
+			k, d := oneBit(r.Intn(128)), oneBit(r.Intn(128))
+			k[r.Intn(16)] ^= 1 << r.Intn(8)
+			d[r.Intn(16)] ^= 1 << r.Intn(8)
+			pv(k, d, nil)
+		case 3:
+			// all-ones / carry-heavy patterns for the "holes" multiplication
+			pat := hx.PickS(r, []byte{0xff, 0x11, 0x88, 0xf0, 0x0f, 0xaa, 0x77})
+			k, d := make([]byte, 16), make([]byte, 16)
+			for j := range k {
+				k[j], d[j] = pat, hx.PickS(r, []byte{0xff, pat, ^pat})
+			}
+			pv(k, d, nil)
+		case 4:
+			pv(r.Bytes(16), r.Bytes(16), nil)
+		default:
+			pv(r.Bytes(16), r.Bytes(PickLen(r, 70)), r.Bytes(PickLen(r, 70)))
+		}
+	}
+	return out
+}
+
 func gen(r *hx.Rng, n int, tier string) []string {
 	var out []string
+	out = append(out, polyvalCases(r, n/8)...)
 	// AES-GCM-SIV inputs constructed so that the little-endian 32-bit counter of the
 	// RFC 8452 counter mode wraps inside the message (tag starts with le32(start))
 	for i, start := range []uint32{0xffffffff, 0xfffffffe, 0xfffffffd, 0xfffffff0, 0xffffff00, 0x7fffffff, 0xffffffff, 0xfffffffe} {
